@@ -184,7 +184,10 @@ fn make_handler<T: ToVal>(
             Update::Invalidated => Upd::Invalidated,
         };
         sh.log(Event::Handler { sub, update });
+        // (stays set if the script panics: the post-fault checks ask where the panic came from)
+        sh.in_handlers.set(true);
         run_script(Who::Handler(sub), &script, &sh, &tables);
+        sh.in_handlers.set(false);
     }
 }
 
@@ -637,6 +640,7 @@ impl Builder {
                     Handle::P(h) => Handle::I(h.map_ref(move |p| {
                         if sh1.stabilising.get() {
                             sh1.log(Event::Projection { key });
+                            sh1.tick("projection");
                         }
                         if proj == 0 { &p.0 } else { &p.1 }
                     })),
@@ -644,6 +648,7 @@ impl Builder {
                     Handle::I(h) => Handle::I(h.map_ref(move |x| {
                         if sh2.stabilising.get() {
                             sh2.log(Event::Projection { key });
+                            sh2.tick("projection");
                         }
                         x
                     })),
